@@ -125,6 +125,15 @@ def cases(draw, tier):
         nl = dict(nl, gates=[g for g in nl['gates'] if g[1] == 'INPUT' or g[0] in reach])
     if shape != 'unsupported' and draw(st.booleans()):
         nl = inflate(nl, [draw(st.integers(0, 30)) for _ in range(draw(st.integers(1, 3)))])
+    if shape != 'unsupported' and draw(st.integers(0, 4)) == 0:
+        # a bare constant read by ordinary gates of a cone (TRUE more often than FALSE): K, u = T(K, g), v = T2(u, h)
+        labs_ = [g[0] for g in nl['gates']]
+        kt = draw(st.sampled_from(['ALWAYS_TRUE', 'ALWAYS_TRUE', 'ALWAYS_FALSE']))
+        g1, g2 = labs_[draw(st.integers(0, len(labs_) - 1))], labs_[draw(st.integers(0, len(labs_) - 1))]
+        t1, t2 = draw(st.sampled_from(['AND', 'XOR', 'OR', 'NAND'])), draw(st.sampled_from(['AND', 'XOR', 'OR', 'NOR']))
+        extra = [['kc_k', kt, []], ['kc_u', t1, ['kc_k', g1] if draw(st.booleans()) else [g1, 'kc_k']], ['kc_v', t2, ['kc_u', g2]]]
+        if not any(l.startswith('kc_') for l in labs_):
+            nl = dict(nl, gates=list(nl['gates']) + extra, outputs=list(nl['outputs']) + ['kc_v'] + (['kc_u'] if draw(st.booleans()) else []))
     nl = machinery_labels(draw, nl)
     extra_out = draw(st.sampled_from([None, None, None, 'input', 'input', 'repeat']))
     if extra_out and nl['outputs']:
@@ -457,7 +466,7 @@ SPEC = {
              'wellformed(); FailedValidationError is always a violation; any other exception is a violation on circuits without '
              'functionally equivalent gates. Case classes eq / comp / clean, const, dead computed from reference tables. '
              'Finite part: all 780 two-motif chains (sharded, every run). Non-trivial: the result differs structurally from the argument.'
-             ' Added during the build: labels of the kind the machinery hands out itself (tmp_<k>, s<k>), sharded sweep wide_cuts (AND / OR / NAND / NOR trees over 7, thorough also 8, inputs plus one redundant gate, widest-cut policy, 3 s / 10 s solver limit), pass-through and repeated outputs, named blocks on the argument.'),
+             ' Added during the build: labels of the kind the machinery hands out itself (tmp_<k>, s<k>), a bare constant read by ordinary gates of a cone, sharded sweep wide_cuts (AND / OR / NAND / NOR trees over 7, thorough also 8, inputs plus one redundant gate, widest-cut policy, 3 s / 10 s solver limit), pass-through and repeated outputs, named blocks on the argument.'),
     'assumptions': ['cut enumerator and SAT solver are stand-ins inside the quantified domain (any admissible cut family, any sound and complete solver)'],
     'sharded': {'motif_pairs': motif_pairs_sweep, 'wide_cuts': wide_cuts_sweep},
     'replay': {'motif_pairs': replay_motif_pair, 'wide_cuts': replay_motif_pair},
